@@ -93,8 +93,18 @@ def design_check(deep, safe):
                    java_opts=("-Xmx6g",))
 
 
-def make_config(c):
+def make_config(c, route=0):
+  """route 0: the configuration object built from values; route 1: parsed from the dictionary form the command line uses -
+  the SAME dictionary object parsed twice, the second result is used (parsing reads the dictionary, it does not consume it)."""
   from ttconv.filters.doc.lcd import LCDDocFilterConfig
+  if route == 1:
+    d = {"safe_area": c["sa"], "preserve_text_align": bool(c["pta"])}
+    if c["color"] != "none":
+      d["color"] = "#" + c["color"]
+    if c["bg"] != "none":
+      d["bg_color"] = "#" + c["bg"]
+    LCDDocFilterConfig.parse(d)
+    return LCDDocFilterConfig.parse(d)
   return LCDDocFilterConfig(safe_area=c["sa"], preserve_text_align=c["pta"],
                             color=None if c["color"] == "none" else LD.parse_color(c["color"]),
                             bg_color=None if c["bg"] == "none" else LD.parse_color(c["bg"]))
@@ -120,12 +130,23 @@ def run_case(adoc, c, kind):
          "obs_raised": "", "ticks": ticks, "visb": visb, "obsa": [[] for _ in visb]}
   # one filter object per configuration and worker process, used for one document after the other (as a service that
   # converts many files does): what it did to an earlier document must not show in a later one
+  # ... and one filter object per worker whose configuration is REPLACED between two documents (a long-lived filter that is
+  # reconfigured): the filter applies the configuration it has when process() is called
   key = json.dumps(c, sort_keys=True)
-  flt = _FILTERS.get(key) if kind == "random" else None
-  if flt is None:
-    flt = LCDDocFilter(make_config(c))
-    if kind == "random":
-      _FILTERS[key] = flt
+  import zlib
+  h = zlib.crc32((key + json.dumps(adoc, sort_keys=True)[:200]).encode())
+  route = 1 if h % 3 == 0 else 0
+  if kind == "random" and h % 4 == 1:
+    flt = _FILTERS.get("reconfigured")
+    if flt is None:
+      flt = _FILTERS["reconfigured"] = LCDDocFilter(make_config({"sa": 10, "pta": False, "color": "none", "bg": "none"}))
+    flt.config = make_config(c, route)
+  else:
+    flt = _FILTERS.get(key) if kind == "random" else None
+    if flt is None:
+      flt = LCDDocFilter(make_config(c, route))
+      if kind == "random":
+        _FILTERS[key] = flt
   from ..core import AltContext, alt_for
   try:
     with AltContext(alt_for(("lcd", key, len(json.dumps(adoc, sort_keys=True))))):
